@@ -113,6 +113,12 @@ type attempt struct {
 	// fault-free steps and the layout event index carried by each (-1: artificial).
 	mutate func(steps []fakemaster.Step, evIdx []int) []fakemaster.Step
 	plan   *fakemaster.ConnPlan // optional pre-built plan (connect-phase faults)
+	// onState is called with the attempt's state before Stream starts.
+	onState func(*attemptState)
+	// afterReturn is called right after Stream returned, before the master's side
+	// of the connection is released (C05 observes the close from there).
+	afterReturn func(*attemptState)
+	fallback    time.Duration // how long to wait before the harness cancels on its own (default 20s)
 	noEOF  bool                 // do not append the EOF packet (the check ends the stream some other way)
 }
 
@@ -278,6 +284,9 @@ func (ss *session) run(at attempt) *attemptState {
 		}
 	}
 	ss.m.Plan(plan)
+	if at.onState != nil {
+		at.onState(st)
+	}
 	ctx := at.ctx
 	var cancel context.CancelFunc
 	if ctx == nil {
@@ -326,9 +335,13 @@ func (ss *session) run(at attempt) *attemptState {
 	// Fallback only: if Stream does not end on its own a short while after the
 	// script was written out, cancel and release.  Checks other than C05/C06 do
 	// not judge how the stream ended.
+	fb := at.fallback
+	if fb == 0 {
+		fb = 20 * time.Second
+	}
 	select {
 	case <-st.streamDone:
-	case <-time.After(20 * time.Second):
+	case <-time.After(fb):
 		st.fellBack = true
 		cancel()
 		plan.Release()
@@ -336,6 +349,9 @@ func (ss *session) run(at attempt) *attemptState {
 		case <-st.streamDone:
 		case <-time.After(20 * time.Second):
 		}
+	}
+	if at.afterReturn != nil {
+		at.afterReturn(st)
 	}
 	plan.Release()
 	select {
